@@ -34,6 +34,7 @@ INFO = {
 }
 
 MANIFEST = {
+    "technique": 'solver-enumerated symbolic hash ranks (CrossHair engine + z3) driving the real construction code through every relative hash order; plus a native run under 16 PYTHONHASHSEEDs',
     "level_text": "Solver-enumerated symbolic hash ranks drive the real construction code through every relative hash order of "
     "the grammar's symbols; byte-identity of the serialised tables, conflict reports and forest order is asserted on every "
     "leaf.  Complemented by a native run under 16 real hash seeds.",
